@@ -449,7 +449,7 @@ Proof.
     intros sv0 H0. apply maybe_delete_session_TInv. eapply TInv_le; [| |exact H0]; [apply sess_le_refl|auto].
   - destruct (update_last_cmid _ _ _ _ sv) as [sv1|] eqn:Hu; cbn; intros [= <-]; [|exact H].
     eapply update_last_cmid_TInv; [apply timestamp_pos, Hts|exact H|exact Hu].
-  - destruct parsed; cbn; intros [= <-]; [|exact H]. eapply TInv_le; [| |exact H]; [apply sess_le_refl|auto].
+  - destruct (config_in_force _ _ _); cbn; intros [= <-]; [|exact H]. eapply TInv_le; [| |exact H]; [apply sess_le_refl|auto].
 Qed.
 
 Theorem run_TInv e es : forall sv sv',
